@@ -339,6 +339,56 @@ pub fn http_pcap(frames: &[Vec<u8>], filter: Option<huginn_net_http::FilterConfi
     r?;
     Ok(rx.try_iter().map(|o| http_res(&o)).collect())
 }
+/// `with_config` + (`init_pool`) + `analyze_pcap`: the analyzers' own parallel mode, end to end. The queue is large enough
+/// for the whole trace; the results are everything the channel delivers until every sender is gone.
+pub fn tcp_pcap_parallel(frames: &[Vec<u8>], cap: usize, workers: usize, batch: usize, timeout: u64) -> Result<Vec<TcpRes>, String> {
+    let p = scratch_pcap(frames);
+    let (tx, rx) = std::sync::mpsc::channel();
+    let mut a = huginn_net_tcp::HuginnNetTcp::with_config(Some(db_arc()), cap, workers, frames.len() + 8, batch, timeout).map_err(|e| e.to_string())?;
+    a.init_pool(tx).map_err(|e| e.to_string())?;
+    let r = a.analyze_pcap(p.to_str().unwrap_or(""), std::sync::mpsc::channel().0, None).map_err(|e| e.to_string());
+    let _ = std::fs::remove_file(&p);
+    r?;
+    let mut got = vec![];
+    // the analyzer stays alive, as in a caller that reads the channel to its end after analyze_pcap returns
+    loop {
+        match rx.recv_timeout(std::time::Duration::from_secs(10)) {
+            Ok(o) => got.push(tcp_res(&o)),
+            Err(std::sync::mpsc::RecvTimeoutError::Disconnected) => break,
+            Err(std::sync::mpsc::RecvTimeoutError::Timeout) => return Err("the result channel is still open 10 s after analyze_pcap returned".into()),
+        }
+    }
+    drop(a);
+    Ok(got)
+}
+pub fn http_pcap_parallel(frames: &[Vec<u8>], cap: usize, workers: usize, batch: usize, timeout: u64) -> Result<Vec<HttpRes>, String> {
+    let p = scratch_pcap(frames);
+    let (tx, rx) = std::sync::mpsc::channel();
+    let mut a = huginn_net_http::HuginnNetHttp::with_config(Some(db_arc()), cap, workers, frames.len() + 8, batch, timeout).map_err(|e| e.to_string())?;
+    a.init_pool(tx).map_err(|e| e.to_string())?;
+    let r = a.analyze_pcap(p.to_str().unwrap_or(""), std::sync::mpsc::channel().0, None).map_err(|e| e.to_string());
+    let _ = std::fs::remove_file(&p);
+    r?;
+    // this analyzer never shuts its pool down: the stream ends when the analyzer (and with it the pool) is dropped
+    drop(a);
+    Ok(rx.iter().map(|o| http_res(&o)).collect())
+}
+pub fn tls_pcap_parallel(frames: &[Vec<u8>], cap: usize, workers: usize, batch: usize, timeout: u64, init: bool) -> Result<Vec<TlsRes>, String> {
+    let p = scratch_pcap(frames);
+    let (tx, rx) = std::sync::mpsc::channel();
+    let mut a = huginn_net_tls::HuginnNetTls::with_config_and_max_connections(workers, frames.len() + 8, batch, timeout, cap);
+    let r = if init {
+        a.init_pool(tx).map_err(|e| e.to_string())?;
+        a.analyze_pcap(p.to_str().unwrap_or(""), std::sync::mpsc::channel().0, None).map_err(|e| e.to_string())
+    } else {
+        // without init_pool the analyzer builds the pool itself around the sender it is given
+        a.analyze_pcap(p.to_str().unwrap_or(""), tx, None).map_err(|e| e.to_string())
+    };
+    let _ = std::fs::remove_file(&p);
+    r?;
+    drop(a);
+    Ok(rx.iter().map(|o| tls_out(&o)).collect())
+}
 /// the bundled database, loaded once (the analyzers take an `Arc<Database>`)
 pub fn db_arc() -> std::sync::Arc<Database> {
     static DB: std::sync::OnceLock<std::sync::Arc<Database>> = std::sync::OnceLock::new();
